@@ -101,6 +101,12 @@ class SymBackend(BackendBase):
     def cls(self, path):
         return self.repo.get(path)
 
+    def module(self, modpart):
+        """the (privately loaded) module object 'cubepart', 'stripe.assembler', ..."""
+        from .loader import PKG
+
+        return self.repo.mod(PKG + "." + modpart)
+
     def new(self, path, *args, **kw):
         return self.cls(path)(*args, **kw)
 
@@ -310,20 +316,25 @@ class SymBackend(BackendBase):
 
         return at
 
-    def order_list(self, name, length, lo, hi):
-        """arbitrary (possibly repeating, unordered) list of ints in [lo, hi): a display order
-        of signed indexes"""
+    def order_list(self, name, length, lo, hi, distinct=False):
+        """arbitrary (possibly repeating unless `distinct`, unordered) list of ints in
+        [lo, hi): a display order of signed indexes"""
         length, lo, hi = raw(length), raw(lo), raw(hi)
         if isinstance(length, int):
             vals = [z3.Int("%s[%d]" % (name, k)) for k in range(length)]
             for v in vals:
                 self.c.assume(v >= zi(lo), v < zi(hi))
+            if distinct and length > 1:
+                self.c.assume(z3.Distinct(*vals))
             s = SIdx(length, symnp._list_elem(vals, "i"), name)
             self.ingredients[name] = ("idx", vals)
             return s
         f = z3.Function(name, z3.IntSort(), z3.IntSort())
         k = z3.Int(name + "!q")
         self.c.assume(z3.ForAll([k], z3.And(f(k) >= zi(lo), f(k) < zi(hi))))
+        if distinct:
+            k2 = z3.Int(name + "!q2")
+            self.c.assume(z3.ForAll([k, k2], z3.Implies(z3.And(0 <= k, k < k2, k2 < zi(length)), f(k) != f(k2))))
         s = SIdx(length, lambda q: f(zi(q)), name)
         self.ingredients[name] = ("idxP", f, length)
         return s
@@ -591,6 +602,12 @@ class ConcreteBackend(BackendBase):
         self.failures = []
         self.checked = 0
 
+    def module(self, modpart):
+        import importlib
+
+        activate_native()
+        return importlib.import_module("cr.cube." + modpart)
+
     def cls(self, path):
         import importlib
 
@@ -633,7 +650,7 @@ class ConcreteBackend(BackendBase):
         lists = [self.np.array(self.values["%s[%d]" % (name, s)], dtype=int) for s in range(int(count))]
         return lambda s: lists[s]
 
-    def order_list(self, name, length, lo, hi):
+    def order_list(self, name, length, lo, hi, distinct=False):
         return self.np.array(self.values[name], dtype=int)
 
     def cut(self, obj, name, value):
@@ -891,11 +908,16 @@ class RandomConcreteBackend(ConcreteBackend):
             lists.append(self.idx_list("%s[%d]" % (name, s), ln, upper))
         return lambda s: lists[s]
 
-    def order_list(self, name, length, lo, hi):
+    def order_list(self, name, length, lo, hi, distinct=False):
         lo, hi = int(lo), int(hi)
         if hi <= lo and int(length) > 0:
             raise SkipInput()
-        v = [self.rnd.randrange(lo, hi) for _ in range(int(length))]
+        if distinct:
+            if int(length) > hi - lo:
+                raise SkipInput()
+            v = self.rnd.sample(range(lo, hi), int(length))
+        else:
+            v = [self.rnd.randrange(lo, hi) for _ in range(int(length))]
         self.values[name] = v
         return self.np.array(v, dtype=int)
 
